@@ -3,7 +3,6 @@ package pgdump
 import (
 	"encoding/binary"
 	"fmt"
-	"os"
 	"path/filepath"
 	"sort"
 	"strconv"
@@ -164,7 +163,7 @@ func IsSequenceFile(data []byte) bool {
 // FindSequences finds all sequences in a database
 func FindSequences(dataDir, dbName string) ([]SequenceData, error) {
 	// Find database OID
-	dbData, err := os.ReadFile(filepath.Join(dataDir, "global", "1262"))
+	dbData, err := readRegularFile(filepath.Join(dataDir, "global", "1262"))
 	if err != nil {
 		return nil, err
 	}
@@ -188,7 +187,7 @@ func findSequencesOfDB(dataDir string, dbOID uint32) ([]SequenceData, error) {
 	basePath := filepath.Join(dataDir, "base", strconv.FormatUint(uint64(dbOID), 10))
 
 	// Read pg_class to find sequences (relkind = 'S')
-	classData, err := os.ReadFile(filepath.Join(basePath, "1259"))
+	classData, err := readRegularFile(filepath.Join(basePath, "1259"))
 	if err != nil {
 		return nil, err
 	}
@@ -212,7 +211,7 @@ func findSequencesOfDB(dataDir string, dbOID uint32) ([]SequenceData, error) {
 
 		// Read the sequence file
 		seqPath := filepath.Join(basePath, strconv.FormatUint(uint64(filenode), 10))
-		seqData, err := os.ReadFile(seqPath)
+		seqData, err := readRegularFile(seqPath)
 		if err != nil {
 			continue
 		}
@@ -235,7 +234,7 @@ func findSequencesOfDB(dataDir string, dbOID uint32) ([]SequenceData, error) {
 func ScanAllSequences(dataDir string) (map[string][]SequenceData, error) {
 	results := make(map[string][]SequenceData)
 
-	dbData, err := os.ReadFile(filepath.Join(dataDir, "global", "1262"))
+	dbData, err := readRegularFile(filepath.Join(dataDir, "global", "1262"))
 	if err != nil {
 		return nil, err
 	}
